@@ -1,6 +1,6 @@
 import PrysmVerif.Generated.C16
 import PrysmVerif.Lemmas.C16Expose
-import PrysmVerif.Lemmas.C16Bin
+import PrysmVerif.Lemmas.C16BinL
 import PrysmVerif.Lemmas.C16Safe
 import Mathlib.Data.Rat.Floor
 /-!
@@ -41,7 +41,8 @@ theorem gen_expose_chain {K : Type} [Field K] [LinearOrder K] [IsStrictOrderedRi
   first
     | rfl
     | (simp only [Generated.C16.exposePre, Model.C16.exposePre, Model.C16.exposePreCap, clipAbove, clipBelow0,
-        Generated.C16.adcCap, Model.C16.adcCap, mul_comm, mul_left_comm, add_comm, add_left_comm]; done)
+        Generated.C16.adcCap, Model.C16.adcCap, Num.ofInt, Int.cast_one, Int.cast_zero, add_zero, zero_add, div_eq_mul_inv, one_div, one_mul, mul_one,
+        mul_comm, mul_left_comm, add_comm, add_left_comm]; done)
 
 /-- hence the generated chain is the model's -/
 theorem gen_expose {K : Type} [Field K] [LinearOrder K] [IsStrictOrderedRing K]
@@ -49,7 +50,8 @@ theorem gen_expose {K : Type} [Field K] [LinearOrder K] [IsStrictOrderedRing K]
     Generated.C16.exposePre img t dc dcnu prnu bias fwc gain bits = Model.C16.exposePre img t dc dcnu prnu bias fwc gain bits := by
   rw [gen_expose_chain, gen_adc_cap]; rfl
 
-/-- the result is reshaped to `(frames, *image.shape)` and squeezed only for a single frame -/
+/-- RECOGNISER FACT (no Lean content; the shape is checked on the real output in every correspondence case): the result is
+reshaped to `(frames, *image.shape)` and squeezed only for a single frame -/
 theorem gen_expose_shape : exposeShapeIsFramesByImage = true := by decide
 
 /-- `bindown`: output length `s // f`, view of shape `(s0//f0, f0, s1//f1, f1, …)`, reduction over the
@@ -63,13 +65,14 @@ theorem gen_tile {K : Type} [Num K] (s f : Int) (pf : K) :
     Generated.C16.tileOutLen s f = Model.C16.tileOutLen s f ∧ tileScaleSum pf = Num.ofInt 1 / pf ∧
     (tileScaleAvg : K) = Num.ofInt 1 ∧ tileViewBroadcastsOverFactor = true := ⟨rfl, rfl, rfl, by decide⟩
 
-/-- the four colour-site slices and every plane / site / gain / source table of `bayer.py` -/
+/-- the four colour-site slices and every plane / site / gain / source table of `bayer.py` (the `wb_postscale` gain
+of each channel included); `deinterlaceAveragesGreens` is a recogniser fact -/
 theorem gen_bayer :
     Generated.C16.siteSlices = Model.C16.siteSlices ∧ Generated.C16.decompSite = Model.C16.decompSite ∧
     Generated.C16.recompPlane = Model.C16.recompPlane ∧ Generated.C16.compositePlane = Model.C16.recompPlane ∧
     Generated.C16.prescaleGain = Model.C16.prescaleGain ∧ Generated.C16.malvarSrc = Model.C16.malvarSrc ∧
-    deinterlaceAveragesGreens = true := by
-  refine ⟨?_, ?_, ?_, ?_, ?_, ?_, by decide⟩
+    deinterlaceAveragesGreens = true ∧ Generated.C16.postscaleGain = Model.C16.postscaleGain := by
+  refine ⟨?_, ?_, ?_, ?_, ?_, ?_, by decide, by funext ch; cases ch <;> rfl⟩
   · funext s; cases s <;> rfl
   · funext c p; cases c <;> cases p <;> rfl
   · funext c s; cases c <;> cases s <;> rfl
@@ -86,12 +89,14 @@ theorem gen_kernels :
   funext s; cases s <;> simp only [Generated.C16.srcKernel, Model.C16.srcKernel] <;> decide +kernel
 
 /-- safe white-balance limiting: from a ratio `r ≥ 1` the loop step moves to `max r (mx / sat)` (running maximum,
-however the comparison is written), every colour plane is inspected (4 mosaic planes before demosaicking,
-3 channels after) and every gain is divided by the ratio -/
+however the comparison is written).  RECOGNISER FACTS (values written by the translator's pattern matcher): every colour
+plane is inspected (4 mosaic planes before demosaicking, 3 channels after) against its own saturation entry, and every
+gain is divided by the ratio -/
 theorem gen_wb_safe {K : Type} [Field K] [LinearOrder K] [IsStrictOrderedRing K] :
     IsMaxStep (wbPreSafeStep : K → K → K → K) ∧ IsMaxStep (wbPostSafeStep : K → K → K → K) ∧
-    wbPreSafePlanes = 4 ∧ wbPostSafePlanes = 3 ∧ wbPreSafeDividesEveryGain = true ∧ wbPostSafeDividesEveryGain = true := by
-  refine ⟨?_, ?_, by decide, by decide, by decide, by decide⟩ <;>
+    wbPreSafePlanes = 4 ∧ wbPostSafePlanes = 3 ∧ wbPreSafeDividesEveryGain = true ∧ wbPostSafeDividesEveryGain = true ∧
+    wbPreSafeSaturationPerPlane = true ∧ wbPostSafeSaturationPerPlane = true := by
+  refine ⟨?_, ?_, by decide, by decide, by decide, by decide, by decide, by decide⟩ <;>
   · intro r mx sat hr
     simp only [wbPreSafeStep, wbPostSafeStep, Model.C16.safeStep, Num.ofInt, Int.cast_one, max_def]
     grind
@@ -110,8 +115,9 @@ theorem dn_eq_model (img t dc dcnu prnu bias fwc gain : K) (bits : Int) :
   unfold dn Model.C16.expose
   rw [gen_expose, gen_cast_bits]
 
-/-- DN lie in `[0, 2^bits − 1]` for every bit depth 1…32 and EVERY input (any image value however far
-above full well or ADC range, any gain, bias, full-well capacity, non-uniformity) -/
+/-- DN lie in `[0, 2^bits − 1]` for every bit depth 1…32 and EVERY input of the noise-free chain (any image value
+however far above full well or ADC range, any gain, bias, full-well capacity, non-uniformity).  The unsigned cast is
+modelled as `⌊x⌋ mod 2^w` (assumption); with the real RNG negative or NaN rates are rejected by `np.random.poisson`. -/
 theorem dn_in_range (bits : Int) (h1 : 1 ≤ bits) (h32 : bits ≤ 32) (img t dc dcnu prnu bias fwc gain : K) :
     0 ≤ dn img t dc dcnu prnu bias fwc gain bits ∧ dn img t dc dcnu prnu bias fwc gain bits ≤ 2 ^ bits.toNat - 1 := by
   unfold dn
@@ -151,9 +157,14 @@ theorem dn_saturates (bits : Int) (h1 : 1 ≤ bits) (h32 : bits ≤ 32) (img t d
 
 end expose
 
-/-! ## binning and tiling (every number of axes `d`, every shape `s`, every factor tuple `f`) -/
+/-! ## binning and tiling (every number of axes, every shape, every factor list)
+
+Stated over `Model.C16.totL / binL / tileL`: the functions that `binND` / `tileND`, i.e. the code the driver executes
+and the correspondence compares with `bindown` / `tile`, read through the row-major index maps
+(`binND_is_binL`).  Shapes are lists of axis lengths: `os` the binned shape, `fs` the factors, `os ⊙ fs` the full shape.
+The scale factors are the generated `tileScaleSum`, `tileScaleAvg`. -/
 section bin
-variable {d : ℕ} (s f : Fin d → ℕ) {K : Type} [Field K]
+variable {K : Type} [Field K]
 
 /-- the reshape in `bindown` is valid and `tile` restores the length: `(s // f)·f = s` when `f ∣ s` -/
 theorem bin_tile_lengths (s f : Int) (hf : 0 < f) (hd : f ∣ s) :
@@ -178,43 +189,80 @@ theorem bin_block_bijection (s f i j k : ℕ) (hi : i < s) (hj : j < f) (hk : k 
     binSrc f i j < s * f ∧ tileSrc f (binSrc f i j) = i ∧ binSrc f i j % f = j ∧
     tileSrc f k < s ∧ binSrc f (tileSrc f k) (k % f) = k := by
   have hf : 0 < f := by omega
-  refine ⟨binSrc_lt hi hj, ?_, ?_, tileSrc_lt hk, ?_⟩
+  refine ⟨?_, ?_, ?_, ?_, ?_⟩
+  · simp only [binSrc]
+    calc i * f + j < i * f + f := by omega
+      _ = (i + 1) * f := by ring
+      _ ≤ s * f := Nat.mul_le_mul_right f hi
   · simp only [binSrc, tileSrc]; rw [Nat.add_comm, Nat.add_mul_div_right _ _ hf, Nat.div_eq_of_lt hj, Nat.zero_add]
   · simp only [binSrc]; rw [Nat.add_comm, Nat.add_mul_mod_self_right, Nat.mod_eq_of_lt hj]
+  · simp only [tileSrc]; exact Nat.div_lt_of_lt_mul (by rwa [Nat.mul_comm] at hk)
   · simp only [binSrc, tileSrc]; exact Nat.div_add_mod' _ _
 
-theorem tile_scale_eq (y : Out s → K) (k : In s f) :
-    tileAvg s f y k * tileScaleSum (blockSize f : K) = tileSum s f y k := by
-  simp only [tileSum, tileAvg, tileScaleSum, Num.ofInt, Int.cast_one]
+/-- **bridge**: what the driver computes (`binND`, `tileND` on flat row-major arrays) is `binL` / `tileL` read through
+`ravel` / `unravel`, divided by `Πf` in average mode / multiplied by `1/Πf` with sum scaling -/
+theorem binND_is_binL [Inhabited K] (shape f : List ℕ) (x : Array K) (t : ℕ) :
+    (∀ ht : t < (binND shape f x false).size,
+      (binND shape f x false)[t] = binL f (fun k => x[ravel shape k]!) (unravel (List.zipWith (· / ·) shape f) t)) ∧
+    (∀ ht : t < (binND shape f x true).size,
+      (binND shape f x true)[t]
+        = binL f (fun k => x[ravel shape k]!) (unravel (List.zipWith (· / ·) shape f) t) / (blockSize f : K)) ∧
+    (∀ ht : t < (tileND shape f x false).size,
+      (tileND shape f x false)[t] = tileL f (fun i => x[ravel shape i]!) (unravel (List.zipWith (· * ·) shape f) t)) ∧
+    (∀ ht : t < (tileND shape f x true).size,
+      (tileND shape f x true)[t]
+        = tileL f (fun i => x[ravel shape i]!) (unravel (List.zipWith (· * ·) shape f) t) * (1 / (blockSize f : K))) :=
+  ⟨binND_get shape f x t, binND_avg_get shape f x t, tileND_get shape f x t, tileND_sum_get shape f x t⟩
+
+theorem tileScaleSum_eq (pf : K) : (tileScaleSum pf : K) = 1 / pf := by
+  simp only [tileScaleSum, Num.ofInt, Int.cast_one]
+
+theorem tileScaleAvg_eq : (tileScaleAvg : K) = 1 := by
+  simp only [tileScaleAvg, Num.ofInt, Int.cast_one]
 
 /-- binning in sum mode conserves the total -/
-theorem bin_sum_conserves (x : In s f → K) : ∑ i, binSum s f x i = ∑ k, x k := binSum_total s f x
+theorem bin_sum_conserves (os fs : List ℕ) (hl : os.length = fs.length) (x : List ℕ → K) :
+    totL os (binL fs x) = totL (List.zipWith (· * ·) os fs) x := totL_binL os fs hl x
 
 /-- binning in average mode conserves the level -/
-theorem bin_avg_level (hne : (blockSize f : K) ≠ 0) (c : K) (i : Out s) : binAvg s f (fun _ => c) i = c :=
-  binAvg_const s f hne c i
+theorem bin_avg_level (fs : List ℕ) (hne : (blockSize fs : K) ≠ 0) (c : K) (i : List ℕ) (hi : i.length = fs.length) :
+    binL fs (fun _ => c) i / (blockSize fs : K) = c := by
+  rw [binL_const fs c i hi]; field_simp
 
 /-- tiling with sum scaling (the generated factor `1/Πf`) conserves the total -/
-theorem tile_sum_conserves (hne : (blockSize f : K) ≠ 0) (y : Out s → K) :
-    ∑ k : In s f, tileAvg s f y k * tileScaleSum (blockSize f : K) = ∑ i, y i := by
-  simp_rw [tile_scale_eq]; exact tileSum_total s f hne y
+theorem tile_sum_conserves (os fs : List ℕ) (hl : os.length = fs.length) (hne : (blockSize fs : K) ≠ 0) (y : List ℕ → K) :
+    totL (List.zipWith (· * ·) os fs) (fun k => tileL fs y k * tileScaleSum (blockSize fs : K)) = totL os y := by
+  have h : (fun k => tileL fs y k * tileScaleSum (blockSize fs : K)) = fun k => (1 / (blockSize fs : K)) * tileL fs y k := by
+    funext k; rw [tileScaleSum_eq]; ring
+  rw [h, totL_mul_left, totL_tileL os fs hl]; field_simp
 
-/-- tiling with average scaling (the generated factor 1) conserves the level -/
-theorem tile_avg_level (c : K) (k : In s f) : tileAvg s f (fun _ => c) k * (tileScaleAvg : K) = c := by
-  simp [tileAvg, tileScaleAvg, Num.ofInt]
+/-- tiling with average scaling (the generated factor 1) conserves the level: it copies -/
+theorem tile_avg_level (fs : List ℕ) (c : K) (k : List ℕ) : tileL fs (fun _ => c) k * (tileScaleAvg : K) = c := by
+  rw [tileScaleAvg_eq, mul_one]; rfl
 
 /-- `bindown(avg)` and `tile(sum)` are adjoint; so are `bindown(sum)` and `tile(avg)` -/
-theorem bin_tile_adjoint (x : In s f → K) (y : Out s → K) :
-    (∑ i, y i * binAvg s f x i = ∑ k, (tileAvg s f y k * tileScaleSum (blockSize f : K)) * x k) ∧
-    (∑ i, y i * binSum s f x i = ∑ k, (tileAvg s f y k * (tileScaleAvg : K)) * x k) := by
-  refine ⟨by simp_rw [tile_scale_eq]; exact binAvg_tileSum_adjoint s f x y, ?_⟩
-  rw [binSum_tileAvg_adjoint]
-  simp [tileScaleAvg, Num.ofInt]
+theorem bin_tile_adjoint (os fs : List ℕ) (hl : os.length = fs.length) (x y : List ℕ → K) :
+    (totL os (fun i => y i * (binL fs x i / (blockSize fs : K)))
+      = totL (List.zipWith (· * ·) os fs) (fun k => (tileL fs y k * tileScaleSum (blockSize fs : K)) * x k)) ∧
+    (totL os (fun i => y i * binL fs x i)
+      = totL (List.zipWith (· * ·) os fs) (fun k => (tileL fs y k * (tileScaleAvg : K)) * x k)) := by
+  constructor
+  · have h1 : (fun i => y i * (binL fs x i / (blockSize fs : K))) = fun i => (1 / (blockSize fs : K)) * (y i * binL fs x i) := by
+      funext i; ring
+    have h2 : (fun k => (tileL fs y k * tileScaleSum (blockSize fs : K)) * x k)
+        = fun k => (1 / (blockSize fs : K)) * (tileL fs y k * x k) := by
+      funext k; rw [tileScaleSum_eq]; ring
+    rw [h1, h2, totL_mul_left, totL_mul_left, adjoint_sum_avg os fs hl]
+  · simp only [tileScaleAvg_eq, mul_one]; exact adjoint_sum_avg os fs hl x y
 
 /-- binning undoes tiling in the matching mode -/
-theorem bin_of_tile (hne : (blockSize f : K) ≠ 0) (y : Out s → K) :
-    binAvg s f (tileAvg s f y) = y ∧ binSum s f (tileSum s f y) = y :=
-  ⟨binAvg_tileAvg s f hne y, binSum_tileSum s f hne y⟩
+theorem bin_of_tile (fs : List ℕ) (hne : (blockSize fs : K) ≠ 0) (y : List ℕ → K) (i : List ℕ) (hi : i.length = fs.length) :
+    binL fs (tileL fs y) i / (blockSize fs : K) = y i ∧
+    binL fs (fun k => tileL fs y k * tileScaleSum (blockSize fs : K)) i = y i := by
+  constructor
+  · rw [binL_tileL fs y i hi]; field_simp
+  · have h := binL_tile_mul fs y (fun _ => tileScaleSum (blockSize fs : K)) i hi
+    rw [h, binL_const fs _ i hi, tileScaleSum_eq]; field_simp
 
 end bin
 
@@ -347,8 +395,9 @@ theorem malvar_kernels_symmetric (src : Src) (k : List (List Rat)) (h : Generate
   to_model
   cases src <;> simp only [Model.C16.srcKernel, Option.some.injEq, reduceCtorEq] at h <;> subst h <;> decide +kernel
 
-/-- unit-sum kernels at work: a uniform mosaic demosaicks to the same uniform level in every channel,
-at every sample, for every shape (reflect boundary included) and both layouts -/
+/-- unit-sum kernels at work: a uniform (unbounded) mosaic demosaicks to the same uniform level in every channel, at
+every sample, both layouts (the image is constant on all of ℕ × ℕ, so the boundary rule plays no role here; the reflect
+boundary is covered by the correspondence run only) -/
 theorem malvar_constant_level (cfa : Cfa) (m n : ℕ) (v : Rat) (ch : Chan) (R C : ℕ) :
     malvar Generated.C16.siteSlices (Generated.C16.malvarSrc cfa) m n (fun _ _ => v) ch R C = v := by
   unfold malvar
@@ -364,7 +413,8 @@ theorem malvar_constant_level (cfa : Cfa) (m n : ℕ) (v : Rat) (ch : Chan) (R C
       simp [convolve5, Num.sumTo, kernelAt, Model.C16.kernelGAtRB, Model.C16.kernelRAtGInRB, Model.C16.kernelRAtGInBR,
         Model.C16.kernelRAtBInBB, Model.C16.malvarDivisor, Num.ofInt] <;> ring
 
-/-- safe white balance: after dividing the gains by the generated limiting ratio, a plane scaled with unit
+/-- safe white balance (UNIT nominal gains only — with other gains `safe` promises nothing and nothing is claimed):
+after dividing the gains by the generated limiting ratio, a plane scaled with unit
 nominal gain does not exceed its saturation level — for every list of inspected planes `(max, saturation)`;
 and the ratio is exactly 1 (data untouched) when nothing is above saturation -/
 theorem wb_safe_limits {K : Type} [Field K] [LinearOrder K] [IsStrictOrderedRing K] (l : List (K × K)) :
@@ -402,7 +452,8 @@ example : dn (K := ℚ) 1000 1 0 1 1 0 100000 1 8 = 255 := by
   · decide
   · rw [show Int.toNat 8 = 8 from rfl]; norm_num
 
-/-- block bijection instance: axis of 12 samples binned by 3 -/
+/-- block bijection instance: axis of 12 samples binned by 3; a 2-axis block sum on ℚ -/
 example : binSrc 3 2 1 = 7 ∧ tileSrc 3 7 = 2 ∧ 7 % 3 = 1 := by decide
+example : binL (K := ℚ) [2, 1] (fun k => (k.headD 0 : ℚ) + 10 * (k.tail.headD 0 : ℚ)) [1, 3] = 65 := by decide +kernel
 
 end C16
